@@ -31,6 +31,7 @@ PROP = dict(
         dict(id="c08_trunc_asan", harness="c08_unified", flavour="asan", cases={Q: 160 + 160, T: 1600 + 1600}, timeout={Q: 600, T: 5400},
              args=["mode=trunc", "chunks=16", "poison=1"], tier_args={Q: ["L=4", "N=5", "lra_cases=160"], T: ["L=6", "N=6", "every_state=1", "lra_cases=1600"]},
              max_restarts=100000),
+        dict(id="c08_big", harness="c08_unified", flavour="plain", cases={Q: 24, T: 240}, timeout={Q: 900, T: 5400}, args=["mode=big"]),
     ],
     min_nontrivial={Q: 5500, T: 192499},
     coverage_floor=[("c08_unified", "comparisons_file_after_write", {Q: 18000, T: 884155}),
